@@ -36,11 +36,11 @@ class PadZeros(Contract):
 
     def ensures(self, ex, args, result):
         parts, L = args
-        if not isinstance(result, AList):
+        if not hasattr(result, "n") or not hasattr(result, "get"):
             return [("returns-list", z3.BoolVal(False))]
         i = z3.Int(fresh_name("i"))
         return [("length", result.n == z3.If(parts.n >= L, parts.n, L)),
-                ("elements", z3.ForAll([i], z3.Implies(z3.And(0 <= i, i < result.n), at(result, i) == pad(parts.arr, parts.n, i))))]
+                ("elements", z3.ForAll([i], z3.Implies(z3.And(0 <= i, i < result.n), result.get(i) == pad(parts.arr, parts.n, i))))]
 
 
 class FirstDifferent(Contract):
@@ -141,6 +141,170 @@ class RangeRender:
                "post": (lambda ex, res: range_form_clauses(r, res)), "args": (r,), "describe": describe}
 
 
+def ver_cong(x, y):
+    """A-VER instance: suffix-free versions with equal epoch and equal zero-padded releases are the same version"""
+    i = z3.Int(fresh_name("ci"))
+    same = z3.And(suffix_free(x), suffix_free(y), V.epoch(x) == V.epoch(y), z3.ForAll([i], z3.Implies(i >= 0, pad(V.rel(x), V.n(x), i) == pad(V.rel(y), V.n(y), i))))
+    return z3.Implies(same, V.ord(x) == V.ord(y))
+
+
+def sep_v(a, c):
+    """a entirely below c and not touching (structured versions)"""
+    ax, cn = a.fields["max"], c.fields["min"]
+    return z3.And(ax.has, cn.has, z3.Or(V.ord(ax.val) < V.ord(cn.val),
+                                        z3.And(V.ord(ax.val) == V.ord(cn.val), z3.Not(b(a.fields["include_max"])), z3.Not(b(c.fields["include_min"])))))
+
+
+class UnionRender:
+    def __init__(self, th, which):
+        self.th, self.which = th, which
+        self.target = UNI + which
+
+    def cases(self, th):
+        from pyvc.theories.version import EpochText, JoinDots, UnionText
+        f = th.index.func(self.target)
+        U_ = th.index.cls("UnionSpecifier")
+        for n in (2, 3):
+            rs = tuple(th.sym_range(f"r{k}") for k in range(n))
+            u = Obj(U_, {"ranges": rs, "simplified": None})
+            pre = [th.range_pre(r) for r in rs] + [sep_v(rs[k], rs[k + 1]) for k in range(n - 1)]
+            left, right = rs[0], rs[1]
+            pre.append(ver_cong(left.fields["max"].val, right.fields["min"].val))
+
+            def post(ex, res, n=n, left=left, right=right, rs=rs):
+                if self.which == "__str__" and isinstance(res, UnionText):
+                    cl = [("C06.union.one-part-per-range", z3.BoolVal(len(res.parts) == len(rs)))]
+                    for k, (part, r) in enumerate(zip(res.parts, rs)):
+                        cl += [(nm.replace("C06.range", "C06.union.part"), c) for nm, c in range_form_clauses(r, part if not isinstance(part, str) or part == "" else None)]
+                    return cl
+                if res is None:
+                    return [("C06.union.unsimplified", z3.BoolVal(self.which == "_simplified_form"))]
+                if n != 2 or not isinstance(res, SpecText) or len(res.clauses) != 1:
+                    return [("C06.union.simplified-only-for-two-ranges", z3.BoolVal(False))]
+                op, payload = res.clauses[0]
+                lm, rn = left.fields["max"], right.fields["min"]
+                outer = z3.And(z3.Not(left.fields["min"].has), z3.Not(right.fields["max"].has), lm.has, rn.has)
+                if op == "!=":
+                    return [("C06.union.not-equal", z3.And(outer, payload == lm.val, V.ord(lm.val) == V.ord(rn.val),
+                                                           z3.Not(b(left.fields["include_max"])), z3.Not(b(right.fields["include_min"]))))]
+                if op == "!=*":
+                    ep, jd = payload
+                    epoch = ep.epoch if ep is not None else z3.IntVal(0)
+                    # `wildcard_bounds(epoch, jd.ints, lm.val, rn.val)` (the two bounds are exactly <prefix>.0 and <prefix+1>.0) is NOT an
+                    # obligation: the instantiation does not converge on it (shifted views of padded lists) and both solvers answer
+                    # unknown on the quantified form.  That clause is covered by the bounded boundary-shape catalogue only.
+                    return [("C06.union.wildcard.shape", z3.And(outer, z3.Not(b(left.fields["include_max"])), b(right.fields["include_min"]),
+                                                                suffix_free(lm.val), suffix_free(rn.val), V.epoch(lm.val) == epoch, V.epoch(rn.val) == epoch))]
+                return [("C06.union.known-form", z3.BoolVal(False))]
+            yield {"name": f"{n}-ranges", "pre": pre, "thunk": (lambda ex, u=u: ex.call_function(f, [u], inline=True)), "post": post,
+                   "args": (left, right), "describe": describe}
+
+
+class ReleaseSeries:
+    """specifiers/__init__._release_series(version, drop): (first version of the series, first version of the next series), built from
+    Version.release/.epoch - the parsing side of `~=V` (drop=1) and `==P.*` / `!=P.*` (drop=0)"""
+    target = "dep_logic.specifiers:_release_series"
+
+    def __init__(self, th):
+        self.th = th
+
+    def cases(self, th):
+        from pyvc.values import AbsObj
+        f = th.index.func(self.target)
+        for drop in (0, 1):
+            v = th.sym_version("version")
+            pre = [ver_wf(v), V.n(v) - drop >= 1]
+
+            def post(ex, res, v=v, drop=drop):
+                if not (isinstance(res, tuple) and len(res) == 2 and all(isinstance(x, AbsObj) for x in res)):
+                    return [("C06.release-series.returns-two-versions", z3.BoolVal(False))]
+                lo, hi = res[0].term, res[1].term
+                L = V.n(v) - drop
+                i = z3.Int(fresh_name("i"))
+                lo_expect = z3.If(i < L, z3.Select(V.rel(v), i), 0)
+                hi_expect = z3.If(i < L - 1, z3.Select(V.rel(v), i), z3.If(i == L - 1, z3.Select(V.rel(v), L - 1) + 1, 0))
+                return [("C06.release-series.no-suffix-same-epoch", z3.And(suffix_free(lo), suffix_free(hi), V.epoch(lo) == V.epoch(v), V.epoch(hi) == V.epoch(v))),
+                        ("C06.release-series.lower", z3.ForAll([i], z3.Implies(i >= 0, pad(V.rel(lo), V.n(lo), i) == lo_expect))),
+                        ("C06.release-series.upper", z3.ForAll([i], z3.Implies(i >= 0, pad(V.rel(hi), V.n(hi), i) == hi_expect)))]
+            yield {"name": f"drop={drop}", "pre": pre, "thunk": (lambda ex, v=v, drop=drop: ex.call_function(f, [AbsObj(v, th), drop], inline=True)),
+                   "post": post, "args": ()}
+
+
+def as_opt(x):
+    from pyvc.values import AbsObj
+    if isinstance(x, Opt):
+        return x
+    if x is None:
+        return Opt(z3.BoolVal(False), z3.Const(fresh_name("none"), V), "version")
+    if isinstance(x, AbsObj):
+        return Opt(z3.BoolVal(True), x.term, "version")
+    raise ValueError(x)
+
+
+class FromPkgSpecifier:
+    """specifiers/__init__._from_pkg_specifier: the interval each PEP 440 clause denotes (leaf translation of C04; parsing side of C06)"""
+    target = "dep_logic.specifiers:_from_pkg_specifier"
+
+    def __init__(self, th):
+        self.th = th
+
+    def cases(self, th):
+        from pyvc.theories.version import EpochText, JoinDots, PkgSpec, RelText, VersionText
+        f = th.index.func(self.target)
+        for op in (">", ">=", "<", "<=", "==", "!=", "~=", "==*", "!=*", "==="):
+            v = th.sym_version("V")
+            pre = [ver_wf(v)]
+            wild = op.endswith("*")
+            if wild:
+                prefix = IL.fresh("prefix")
+                ep = z3.Int(fresh_name("epoch"))
+                has_ep = z3.Bool(fresh_name("has_epoch"))
+                i = z3.Int(fresh_name("i"))
+                pre = [prefix.n >= 1, ep >= 0, z3.ForAll([i], z3.Implies(z3.And(0 <= i, i < prefix.n), at(prefix, i) >= 0))]
+                texts = [(RelText(EpochText(ep), JoinDots(prefix), True), ep), (RelText(None, JoinDots(prefix), True), z3.IntVal(0))]
+            else:
+                texts = [(VersionText(v), None)]
+                if op == "~=":
+                    pre.append(V.n(v) >= 2)         # packaging rejects `~=1`
+            for text, epoch in texts:
+                spec = PkgSpec(op.rstrip("*"), text)
+
+                def post(ex, res, op=op, v=v, epoch=epoch, text=text):
+                    if op == "===":
+                        return [("C04.leaf.arbitrary", z3.BoolVal(isinstance(res, Obj) and res.cls.name == "ArbitrarySpecifier"))]
+                    if not isinstance(res, Obj):
+                        return [("C04.leaf.returns-specifier", z3.BoolVal(False))]
+                    if op in ("!=", "!=*"):
+                        if res.cls.name != "UnionSpecifier" or not isinstance(res.fields["ranges"], tuple) or len(res.fields["ranges"]) != 2:
+                            return [("C04.leaf.exclusion-is-two-ranges", z3.BoolVal(False))]
+                        left, right = res.fields["ranges"]
+                        lmin, lmax, rmin, rmax = (as_opt(x) for x in (left.fields["min"], left.fields["max"], right.fields["min"], right.fields["max"]))
+                        outer = z3.And(z3.Not(lmin.has), z3.Not(rmax.has), lmax.has, rmin.has, z3.Not(b(left.fields["include_min"])), z3.Not(b(right.fields["include_max"])))
+                        if op == "!=":
+                            return [("C04.leaf.not-equal", z3.And(outer, lmax.val == v, rmin.val == v, z3.Not(b(left.fields["include_max"])), z3.Not(b(right.fields["include_min"]))))]
+                        return [("C04.leaf.wildcard-exclusion.shape", z3.And(outer, z3.Not(b(left.fields["include_max"])), b(right.fields["include_min"]))),
+                                ("C04.leaf.wildcard-exclusion.bounds", wildcard_bounds(epoch, text.ints.ints, lmax.val, rmin.val))]
+                    if res.cls.name != "RangeSpecifier":
+                        return [("C04.leaf.returns-range", z3.BoolVal(False))]
+                    mn, mx = as_opt(res.fields["min"]), as_opt(res.fields["max"])
+                    imin, imax = b(res.fields["include_min"]), b(res.fields["include_max"])
+                    if op in (">", ">="):
+                        return [("C04.leaf.lower-bound", z3.And(mn.has, mn.val == v, z3.Not(mx.has), imin == b(op == ">="), z3.Not(imax)))]
+                    if op in ("<", "<="):
+                        return [("C04.leaf.upper-bound", z3.And(mx.has, mx.val == v, z3.Not(mn.has), imax == b(op == "<="), z3.Not(imin)))]
+                    if op == "==":
+                        return [("C04.leaf.exact", z3.And(mn.has, mx.has, mn.val == v, mx.val == v, imin, imax))]
+                    if op == "~=":
+                        return [("C04.leaf.compatible.shape", z3.And(mn.has, mx.has, mn.val == v, imin, z3.Not(imax))),
+                                ("C04.leaf.compatible.upper-is-next-series", tilde_upper(v, mx.val))]
+                    if op == "==*":
+                        return [("C04.leaf.wildcard.shape", z3.And(mn.has, mx.has, imin, z3.Not(imax))),
+                                ("C04.leaf.wildcard.bounds", wildcard_bounds(epoch, text.ints.ints, mn.val, mx.val))]
+                    return [("C04.leaf.known-operator", z3.BoolVal(False))]
+                yield {"name": f"{op}{'|epoch' if epoch is not None and not z3.is_int_value(epoch) else ''}", "pre": pre,
+                       "thunk": (lambda ex, spec=spec: ex.call_function(f, [spec], inline=True)), "post": post, "args": ()}
+
+
 def describe(m, args, result=None):
     def ver(t):
         n = m.eval(V.n(t), model_completion=True).as_long()
@@ -165,5 +329,6 @@ def loop_specs(th):
 
 
 def all_contracts(th):
-    cs = [PadZeros(), FirstDifferent(), RangeRender(th, "_simplified_form"), RangeRender(th, "__str__")]
+    cs = [PadZeros(), FirstDifferent(), RangeRender(th, "_simplified_form"), RangeRender(th, "__str__"),
+          UnionRender(th, "_simplified_form"), ReleaseSeries(th), FromPkgSpecifier(th)]
     return {c.target: c for c in cs}
